@@ -275,22 +275,15 @@ func (r *Runtime) arrayproto_toLocaleString(call FunctionCall) Value {
 	defer r.popFromStringStack()
 
 	var buf StringBuilder
-	if a := r.checkStdArrayObj(array); a != nil {
-		for i, item := range a.values {
-			if i > 0 {
-				buf.WriteRune(',')
-			}
-			r.writeItemLocaleString(item, &buf)
+	// writeItemLocaleString() calls the item's toLocaleString() which may modify the array, therefore
+	// each element has to be read after the previous one has been processed.
+	length := toLength(array.self.getStr("length", nil))
+	for i := int64(0); i < length; i++ {
+		if i > 0 {
+			buf.WriteRune(',')
 		}
-	} else {
-		length := toLength(array.self.getStr("length", nil))
-		for i := int64(0); i < length; i++ {
-			if i > 0 {
-				buf.WriteRune(',')
-			}
-			item := array.self.getIdx(valueInt(i), nil)
-			r.writeItemLocaleString(item, &buf)
-		}
+		item := array.self.getIdx(valueInt(i), nil)
+		r.writeItemLocaleString(item, &buf)
 	}
 
 	return buf.String()
@@ -446,17 +439,19 @@ func (r *Runtime) arrayproto_splice(call FunctionCall) Value {
 		panic(r.NewTypeError("Invalid array length"))
 	}
 	a := arraySpeciesCreate(o, actualDeleteCount)
-	if src := r.checkStdArrayObj(o); src != nil {
-		if dst := r.checkStdArrayObjWithProto(a); dst != nil {
-			values := make([]Value, actualDeleteCount)
-			copy(values, src.values[actualStart:])
-			setArrayValues(dst, values)
-		} else {
-			for k := int64(0); k < actualDeleteCount; k++ {
-				createDataPropertyOrThrow(a, intToValue(k), src.values[k+actualStart])
-			}
-			a.self.setOwnStr("length", intToValue(actualDeleteCount), true)
+	var src, dst *arrayObject
+	// The fast path is only taken if both the source and the destination are standard arrays, so that nothing
+	// below can run any user code, and if the source still has the length all the indexes were calculated for
+	// (converting the arguments and creating the destination could have modified it).
+	if a != o {
+		if src = r.checkStdArrayObj(o); src != nil && int64(src.length) == length {
+			dst = r.checkStdArrayObjWithProto(a)
 		}
+	}
+	if dst != nil {
+		deleted := make([]Value, actualDeleteCount)
+		copy(deleted, src.values[actualStart:])
+		setArrayValues(dst, deleted)
 		var values []Value
 		if itemCount < actualDeleteCount {
 			values = src.values
@@ -490,6 +485,7 @@ func (r *Runtime) arrayproto_splice(call FunctionCall) Value {
 				createDataPropertyOrThrow(a, valueInt(k), nilSafe(o.self.getIdx(from, nil)))
 			}
 		}
+		a.self.setOwnStr("length", intToValue(actualDeleteCount), true)
 
 		if itemCount < actualDeleteCount {
 			for k := actualStart; k < length-actualDeleteCount; k++ {
